@@ -510,13 +510,14 @@ where
                                 ..
                             }) => {
                                 asm.next()?;
-                                match asm.next()? {
+                                match asm.peek()? {
                                     None => return asm.end_of_input_err(),
 
                                     Some(Token::Register {
                                         name: RegisterName::HL,
                                         ..
                                     }) => {
+                                        asm.next()?;
                                         asm.expect_symbol(SymbolName::ParenClose)?;
                                         asm.data.push(0x8E);
                                     }
@@ -525,6 +526,7 @@ where
                                         name: RegisterName::IX,
                                         ..
                                     }) => {
+                                        asm.next()?;
                                         asm.expect_symbol(SymbolName::Plus)?;
                                         asm.data.push(0xDD);
                                         asm.data.push(0x8E);
@@ -547,6 +549,7 @@ where
                                         name: RegisterName::IY,
                                         ..
                                     }) => {
+                                        asm.next()?;
                                         asm.expect_symbol(SymbolName::Plus)?;
                                         asm.data.push(0xFD);
                                         asm.data.push(0x8E);
@@ -771,12 +774,13 @@ where
                                 ..
                             }) => {
                                 asm.next()?;
-                                match asm.next()? {
+                                match asm.peek()? {
                                     None => return asm.end_of_input_err(),
                                     Some(Token::Register {
                                         name: RegisterName::HL,
                                         ..
                                     }) => {
+                                        asm.next()?;
                                         asm.data.push(0x86);
                                         asm.expect_symbol(SymbolName::ParenClose)?;
                                     }
@@ -785,6 +789,7 @@ where
                                         name: RegisterName::IX,
                                         ..
                                     }) => {
+                                        asm.next()?;
                                         asm.expect_symbol(SymbolName::Plus)?;
                                         asm.data.push(0xDD);
                                         asm.data.push(0x86);
@@ -807,6 +812,7 @@ where
                                         name: RegisterName::IY,
                                         ..
                                     }) => {
+                                        asm.next()?;
                                         asm.expect_symbol(SymbolName::Plus)?;
                                         asm.data.push(0xFD);
                                         asm.data.push(0x86);
@@ -1624,12 +1630,13 @@ where
                         ..
                     }) => {
                         asm.next()?;
-                        match asm.next()? {
+                        match asm.peek()? {
                             None => return asm.end_of_input_err(),
                             Some(Token::Register {
                                 name: RegisterName::HL,
                                 ..
                             }) => {
+                                asm.next()?;
                                 asm.data.push(0xBE);
                                 asm.expect_symbol(SymbolName::ParenClose)?;
                             }
@@ -1638,6 +1645,7 @@ where
                                 name: RegisterName::IX,
                                 ..
                             }) => {
+                                asm.next()?;
                                 asm.expect_symbol(SymbolName::Plus)?;
                                 asm.data.push(0xDD);
                                 asm.data.push(0xBE);
@@ -1661,6 +1669,7 @@ where
                                 name: RegisterName::IY,
                                 ..
                             }) => {
+                                asm.next()?;
                                 asm.expect_symbol(SymbolName::Plus)?;
                                 asm.data.push(0xFD);
                                 asm.data.push(0xBE);
@@ -6031,12 +6040,13 @@ where
                                 ..
                             }) => {
                                 asm.next()?;
-                                match asm.next()? {
+                                match asm.peek()? {
                                     None => return asm.end_of_input_err(),
                                     Some(Token::Register {
                                         name: RegisterName::HL,
                                         ..
                                     }) => {
+                                        asm.next()?;
                                         asm.data.push(0x9E);
                                         asm.expect_symbol(SymbolName::ParenClose)?;
                                     }
@@ -6045,6 +6055,7 @@ where
                                         name: RegisterName::IX,
                                         ..
                                     }) => {
+                                        asm.next()?;
                                         asm.expect_symbol(SymbolName::Plus)?;
                                         asm.data.push(0xDD);
                                         asm.data.push(0x9E);
@@ -6067,6 +6078,7 @@ where
                                         name: RegisterName::IY,
                                         ..
                                     }) => {
+                                        asm.next()?;
                                         asm.expect_symbol(SymbolName::Plus)?;
                                         asm.data.push(0xFD);
                                         asm.data.push(0x9E);
@@ -6086,7 +6098,7 @@ where
                                     }
 
                                     Some(_) => {
-                                        asm.data.push(0x9E);
+                                        asm.data.push(0xDE);
                                         let (loc, expr) = asm.expr()?;
                                         if let Some(value) =
                                             expr.evaluate(&asm.symtab, &asm.str_interner)
